@@ -10,7 +10,8 @@
    every variant of the model that has the rollback branches clear both
    pending slots (c02_partial, c02_partial_last_stable) - vacuous for the code
    as it is, satisfiable for the repaired variant (c02_repaired_accepts and the
-   Examples). *)
+   Examples); for the repaired variant the last clause also as a theorem over
+   whole histories (c02_repaired_restores_last_stable). *)
 From Coq Require Import List Bool NArith String.
 Import ListNotations.
 From Verif Require Import Common.Base Model.Signaling Proofs.Signaling Proofs.SignalingHist
@@ -22,10 +23,10 @@ Definition ds (ty : sdptype) (id : N) : desc := {| d_ty := ty; d_txt := tx id |}
 (* histories that reach the four states the property names *)
 Definition reach (s : sstate) : list pcop :=
   match s with
-  | HaveLocalOffer => [OCreateOffer 16; OSetLocal (ds Offer 16)]
+  | HaveLocalOffer => [OCreateOffer 16 true; OSetLocal (ds Offer 16)]
   | HaveRemoteOffer => [OSetRemote (ds Offer 16)]
-  | HaveLocalPranswer => [OSetRemote (ds Offer 16); OCreateAnswer 32 true; OSetLocal (ds Pranswer 32)]
-  | HaveRemotePranswer => [OCreateOffer 16; OSetLocal (ds Offer 16); OSetRemote (ds Pranswer 32)]
+  | HaveLocalPranswer => [OSetRemote (ds Offer 16); OCreateAnswer 32 true true; OSetLocal (ds Pranswer 32)]
+  | HaveRemotePranswer => [OCreateOffer 16 true; OSetLocal (ds Offer 16); OSetRemote (ds Pranswer 32)]
   | _ => []
   end.
 
@@ -86,6 +87,22 @@ Theorem c02_partial_last_stable : forall r ops mid sd d n',
 Proof. intros r ops; exact (rollback_restores r (run_r r ops)). Qed.
 Print Assumptions c02_partial_last_stable.
 
+(* the same as a statement about whole histories of the repaired variant: any
+   history ending in a successful rollback leaves as current descriptions the
+   pair (current local, current remote) of the last moment in that history at
+   which the signaling state was stable (last_stable_pair: the start of the
+   history counts as stable with no descriptions) - whatever happened in
+   between, accepted or rejected, on either side *)
+Theorem c02_repaired_restores_last_stable : forall ops sd d n',
+  d_ty d = Rollback ->
+  step_r repaired (run_r repaired ops) (set_op sd d) = (n', Ok tt) ->
+  st n' = Stable /\ pendL n' = None /\ pendR n' = None /\
+  (curL n', curR n') = last_stable_pair repaired ops.
+Proof.
+  intros ops sd d n'. exact (rollback_restores_last_stable repaired ops sd d n' eq_refl).
+Qed.
+Print Assumptions c02_repaired_restores_last_stable.
+
 (* the repaired variant does accept the four rollbacks (parsable or, through
    JSEP 5.4, empty text), so with c02_partial and c02_stable_rejected it
    satisfies the whole property *)
@@ -113,8 +130,8 @@ Print Assumptions c02_edge_only_refuted.
 
 (* ---- premises of c02_partial / c02_partial_last_stable are satisfiable ---- *)
 Example c02_repaired_rollback_after_exchange :
-  let ops := [OCreateOffer 16; OSetLocal (ds Offer 16); OSetRemote (ds Answer 32)] in
-  let mid := [OSetRemote (ds Offer 48); OCreateAnswer 64 true; OSetLocal (ds Pranswer 64)] in
+  let ops := [OCreateOffer 16 true; OSetLocal (ds Offer 16); OSetRemote (ds Answer 32)] in
+  let mid := [OSetRemote (ds Offer 48); OCreateAnswer 64 true true; OSetLocal (ds Pranswer 64)] in
   exists n',
     never_stable repaired (run_r repaired ops) mid /\
     st (run_from_r repaired (run_r repaired ops) mid) = HaveLocalPranswer /\
@@ -126,8 +143,8 @@ Proof.
   cbn zeta.
   exists (fst (step_r repaired
             (run_from_r repaired
-               (run_r repaired [OCreateOffer 16; OSetLocal (ds Offer 16); OSetRemote (ds Answer 32)])
-               [OSetRemote (ds Offer 48); OCreateAnswer 64 true; OSetLocal (ds Pranswer 64)])
+               (run_r repaired [OCreateOffer 16 true; OSetLocal (ds Offer 16); OSetRemote (ds Answer 32)])
+               [OSetRemote (ds Offer 48); OCreateAnswer 64 true true; OSetLocal (ds Pranswer 64)])
             (OSetLocal {| d_ty := Rollback; d_txt := empty_txt |}))).
   vm_compute. repeat split; discriminate.
 Qed.
@@ -138,3 +155,29 @@ Example c02_as_is_witness :
   step (run (reach HaveRemoteOffer)) (OSetRemote (ds Rollback 16))
   = (run (reach HaveRemoteOffer), Err EInvalidModification).
 Proof. split; reflexivity. Qed.
+
+(* c02_repaired_restores_last_stable is not vacuous: two completed exchanges
+   (the second one re-negotiates), then a third offer answered provisionally,
+   then the rollback: the current descriptions are those of the second exchange *)
+Example c02_repaired_last_stable_nontrivial :
+  let ops := [OCreateOffer 16 true; OSetLocal (ds Offer 16); OSetRemote (ds Answer 32);
+              OSetRemote (ds Offer 48); OCreateAnswer 64 true true; OSetLocal (ds Answer 64);
+              OSetLocal (ds Offer 99);                         (* rejected: not the last offer *)
+              OCreateOffer 80 true; OSetLocal (ds Offer 80); OSetRemote (ds Pranswer 96)] in
+  exists n',
+    st (run_r repaired ops) = HaveRemotePranswer /\
+    step_r repaired (run_r repaired ops) (OSetRemote (ds Rollback 112)) = (n', Ok tt) /\
+    last_stable_pair repaired ops = (Some (ds Answer 64), Some (ds Offer 48)) /\
+    (curL n', curR n') = (Some (ds Answer 64), Some (ds Offer 48)) /\
+    pendL (run_r repaired ops) = Some (ds Offer 80) /\ pendL n' = None.
+Proof.
+  cbn zeta.
+  exists (fst (step_r repaired
+    (run_r repaired
+       [OCreateOffer 16 true; OSetLocal (ds Offer 16); OSetRemote (ds Answer 32);
+        OSetRemote (ds Offer 48); OCreateAnswer 64 true true; OSetLocal (ds Answer 64);
+        OSetLocal (ds Offer 99);
+        OCreateOffer 80 true; OSetLocal (ds Offer 80); OSetRemote (ds Pranswer 96)])
+    (OSetRemote (ds Rollback 112)))).
+  vm_compute. repeat split.
+Qed.
